@@ -98,7 +98,7 @@ theorem place_stepX (pre post : List NodeId) (marker : NodeId) (S L : List Item)
         cases y.nodes.head? <;> exact nodup_mountItem _ _ sh.nodup
     have hkids_mem : ∀ n, n ∈ (placeStep marker ks (p, x)).1 → n ∈ x.nodes ∨ n ∈ ks.1 := by
       intro n hn
-      exact mem_place1.mp (by simpa [placeStep] using hn)
+      exact mem_place1 (by simpa [placeStep] using hn)
     refine ⟨seq', ⟨hk, hkids_nodup, ?_, ?_, hord, ?_⟩, ⟨hpos.2, hitems.2, ?_, ?_, ?_, ?_, hdis.2⟩⟩
     · intro z hz
       rcases (hms z).mp hz with rfl | hz
@@ -517,7 +517,8 @@ theorem rebuild_ordered_iff (D : List Key → List Key → Diff) (hD : DiffLike 
     · have hw : ({ s.w with log := {} } : World).storage = (somes s.w.storage).map some := hs.all_some
       obtain ⟨rem, U, ads, c, hn, hU, heq⟩ := applyDiff_spec D hD s.hashed to (somes s.w.storage) hs.nodup hto
         hs.keys hte s.bs s.marker { s.w with log := {} } hw
-      have hwr : (rebuildWith D s to).w = pipeline s.bs s.marker to rem U ads ads.length { s.w with log := {} } := heq
+      have hwr : (rebuildWith D s to).w = pipeline s.bs s.marker to rem U ads ads.length { s.w with log := {} } :=
+        (rebuildWith_w_of_parent D s to hm.has_parent).trans heq
       rw [hwr] at hord
       exact c.dom_order_exact hn hU s.bs s.marker { s.w with log := {} } pre post hw hm.ordered
         hm.nodup hm.nonempty hm.fresh hm.bs_pos hord
